@@ -437,6 +437,13 @@ def iop(op, ty, a, b):
     if op in ('gt', 'ge'):
         op = {'gt': 'lt', 'ge': 'le'}[op]
         a, b = b, a
+    # unsigned x % 2^k == x & (2^k - 1), x / 2^k == x >> k  (exact for every value)
+    if not signed and op in ('rem', 'div') and is_const(b) and not is_const(a):
+        kb = cbits(b)
+        if kb and (kb & (kb - 1)) == 0:
+            if op == 'rem':
+                return iop('and', ty, a, const(kb - 1, size))
+            return iop('shr', ty, a, const(kb.bit_length() - 1, 4))
     # distribute over gated constants (enum-derived indices): op(ite(c, k1, k2), k) = ite(c, op(k1,k), op(k2,k))
     if is_const(b) and a.op == 'ite' and _const_leaves(a):
         return ite(a.args[0], iop(op, ty, a.args[1], b), iop(op, ty, a.args[2], b))
